@@ -269,6 +269,10 @@ func RunCase(c *Ctx, id, stack string, items []string) []string {
 		outs[i] = in.Exec(it)
 		c.Impl("%s#%d %s", id, i, outs[i])
 		f := strings.Fields(it)
+		if outs[i] == "panic" {
+			outs = outs[:i+1]
+			break
+		}
 		if len(f) > 2 {
 			c.Count("op." + f[2])
 			c.Count("res." + strings.SplitN(outs[i], ":", 2)[0])
